@@ -10,22 +10,22 @@ SYMX = ('bounded symbolic execution of the real rxsci code (CrossHair 0.0.110 pe
 # property -> (technique, level text, level note, design ref)
 CHECKS = {
     'C04': ('solver-based: symbolic execution (CrossHair+z3) of real group_by vs reference interpreter',
-            'For every sequence of N<=4 (thorough 6) arbitrary integers and 7 key mappers (equal-not-identical keys), the real group_by output trace (values, order, emission position) equals the reference semantics; also nested in group_by/roll/split. ' + SYMX,
+            'For every sequence of N<=4 (thorough 6) arbitrary integers and 7 key mappers (equal-not-identical keys), the real group_by output trace (values, order, emission position) equals the reference semantics; also nested in group_by/roll/split, with a completion-triggered consumer after it, after an aborted first subscription, and with distinct keys of equal hash. ' + SYMX,
             'trusted: CrossHair/z3, vp/refsem.py reference interpreter (transcribes the statement), RxPY synchronous delivery; bounds in evidence', '4/C04'),
     'C05': ('solver-based: symbolic execution (CrossHair+z3) of real roll vs reference interpreter, (w,s) grid',
-            'For every (w,s) in 1..4 x 1..4 (thorough 1..6) and every stream of N<=7 (thorough 13) arbitrary integers the real roll emits exactly the sliding windows of the statement, in closing/opening order, checked through an injective linear digest of window contents; also under group_by and nested. ' + SYMX,
+            'For every (w,s) in 1..4 x 1..4 (thorough 1..6) and every stream of N<=7 (thorough 13) arbitrary integers the real roll emits exactly the sliding windows of the statement, in closing/opening order, checked through an injective linear digest of window contents; also under group_by, nested, with a consumer after roll and after an aborted first subscription; an inductive one-step form from the invariant state of an UNBOUNDED item counter (n = q*P + r, q symbolic) for every (w,s) in 1..6 (12) covers streams of any length. ' + SYMX,
             'trusted: CrossHair/z3, vp/refsem.py; window/stride outside the grid and longer streams are outside the claim', '4/C05'),
     'C06': ('solver-based: symbolic execution (CrossHair+z3) of real split vs reference interpreter',
-            'For every sequence of N<=4 (thorough 6) arbitrary integers and predicates returning fresh tuples / run-time strings, real split segments = maximal runs by != ; empty key, nested and group_by contexts. ' + SYMX,
+            'For every sequence of N<=4 (thorough 6) arbitrary integers and predicates returning fresh tuples / run-time strings, real split segments = maximal runs by != ; empty key, nested and group_by contexts, completion-triggered consumers after split, a shared self-unequal (NaN) predicate value, retry history. ' + SYMX,
             'trusted: CrossHair/z3, vp/refsem.py', '4/C06'),
     'C07': ('solver-based: symbolic execution (CrossHair+z3) of real time_split with symbolic timestamps and timeouts',
-            'Timestamps are symbolic non-decreasing integers, both timeouts symbolic in 1..8 (or None), closing flags symbolic: the item->window partition of the real time_split equals the reference for all of them, N<=4 (thorough 6), also under group_by. ' + SYMX,
+            'Timestamps are symbolic non-decreasing integers, both timeouts symbolic in 0..8 (or None), closing flags symbolic: the item->window partition of the real time_split equals the reference for all of them, N<=4 (thorough 6), also under group_by. ' + SYMX,
             'trusted: CrossHair/z3, vp/refsem.py; integers stand for datetime/timedelta (ordered abelian group: the operator only uses >= and +)', '4/C07'),
     'C09': ('solver-based: symbolic execution (CrossHair+z3) of real scan vs left fold, plus one-step inductive form on scan_mux',
-            'Whole runs (plain, mux root, 2 interleaved groups, successive roll lifetimes) of scan with 4 accumulators incl. a mutating list append, seed as value/factory, reduce/terminator on/off equal the left fold for all N<=4 (thorough 6) integers; one-step obligations from an arbitrary stored accumulator cover keys of any length; derived operators vs their fold. ' + SYMX,
+            'Whole runs (plain, mux root - each subscribed twice after an aborted first subscription -, 2 interleaved groups, successive roll lifetimes) of scan with 6 accumulators incl. a mutating list append, a tuple seed holding a mutated list and one that returns None, seed as value/factory, reduce/terminator on/off equal the left fold for all N<=4 (thorough 6) integers; one-step obligations from an arbitrary stored accumulator cover keys of any length; derived operators vs their fold. ' + SYMX,
             'trusted: CrossHair/z3; distogram replaced by a stub for dist.update (structure only)', '4/C09'),
     'C10': ('solver-based: symbolic execution (CrossHair+z3) of each sequence operator vs its list definition',
-            'One obligation per operator x mode x length x parameter: N<=5 (thorough 7) items each an arbitrary int or None; first/last/take/distinct/distinct_until_changed/lag/pad_start/pad_end/start_with/batch/sort equal the list definitions of the statement. ' + SYMX,
+            'One obligation per operator x mode x length x parameter: N<=5 (thorough 7) items each an arbitrary int or None; first/last/take/distinct/distinct_until_changed/lag/pad_start/pad_end/start_with/batch/sort equal the list definitions of the statement; the stateful ones also under group_by with 2 solver-interleaved keys and on re-subscription after an aborted run. ' + SYMX,
             'trusted: CrossHair/z3; list definitions in vp/props/C10.py; distinct restricted to ints 0..2 (the real code hashes items)', '4/C10'),
     'C11': ('solver-based: symbolic execution (CrossHair+z3) of Subject-driven pipelines, timed trace vs reference interpreter',
             'Every output is stamped with the source position at which it reaches the final subscriber; for all N<=4 (thorough 5) integers the timed trace equals the reference timed trace (multiset per source position) for every catalogue operator, keyed operators around reducing/streaming inner pipelines, tee_map and seeded compositions to depth 3. ' + SYMX,
@@ -35,43 +35,43 @@ CHECKS = {
 
 CHECKS.update({
     'C01': ('solver-based: symbolic execution (CrossHair+z3) of mux vs plain runs of the same operators; z3x term comparison for float-valued operators',
-            'For every enumerated/seeded dual-mode pipeline (all single operators, seeded compositions to depth 3, tee_map with the 3 joins) and every N<=3 (thorough 4) items assigned by the solver to <=2 (3) groups, the per-group output of with_memory_store([group_by(k, P)]) equals rx.from_(group).pipe(*P). Float-valued operators: mux and plain output terms over z3 reals are identical for every assignment of N<=5 (7) items to <=3 groups. ' + SYMX,
+            'For every enumerated/seeded dual-mode pipeline (all single operators, seeded compositions to depth 3, tee_map with the 3 joins) and every N<=3 (thorough 4) items assigned by the solver to <=2 (3) groups, the per-group output of with_memory_store([group_by(k, P)]) equals rx.from_(group).pipe(*P). Also: keys taken from split / roll (re-used slots), the pipeline spread over two chained store stages, and float-valued operators run on z3 terms (reals, and IEEE binary64 for the accumulating ones; data-dependent branches forked): mux and plain output terms identical / provably equal for every assignment of N<=5 (7) items to <=3 groups. ' + SYMX,
             'trusted: CrossHair/z3, plain RxPY execution as the specification; preconditions of the statement assumed (no first/last/reduce on an empty sequence, bool predicates, no completion-triggered op after take/first inside tee_map); FloatSlots/SqrtUF stubs for the z3x family', '4/C01'),
     'C02': ('solver-based: symbolic execution (CrossHair+z3), per-lifetime differential (inner pipeline in a keyed parent vs standalone in a fresh store)',
-            'For 35 stateful inner pipelines inside group_by / roll (tumbling, overlapping, gapped) / split / time_split / group_by+roll and all N<=4 (thorough 6) integers, the outputs of every key lifetime equal the same pipeline run standalone on that lifetime\'s items; plus hand-built mux event lists with solver-chosen sparse / descending / re-used key indices. ' + SYMX,
+            'For 35 stateful inner pipelines inside group_by / roll (tumbling, overlapping, gapped) / split / time_split / group_by+roll and all N<=4 (thorough 6) integers, the outputs of every key lifetime equal the same pipeline run standalone on that lifetime\'s items (nested split / group_by inner pipelines are completion-sensitive); plus hand-built mux event lists with solver-chosen sparse / descending / re-used key indices. ' + SYMX,
             'trusted: CrossHair/z3; the standalone run of the inner pipeline is the specification', '4/C02'),
     'C03': ('solver-based: symbolic execution (CrossHair+z3) with protocol monitors at every operator boundary',
-            'Monitors before/after every operator, at head/tail of every inner pipeline and tee_map branch flag any create of a live key, event for a dead key, slot-index clash of live keys, completion with live keys, event after completion; no flag for all N<=4 (6) integers over the roll (w,s) grid, systematic nestings to depth 3 and seeded nestings. ' + SYMX,
+            'Monitors before/after every operator, at head/tail of every inner pipeline and tee_map branch flag any create of a live key, event for a dead key, slot-index clash of live keys, completion with live keys, event after completion; no flag for all N<=4 (6) integers over the roll (w,s) grid, systematic nestings to depth 3 and seeded nestings, on a first and a second subscription of the same pipeline object, and with key mappers / predicates that raise. ' + SYMX,
             'trusted: CrossHair/z3; programs outside the enumerated/seeded set are outside the claim', '4/C03'),
     'C08': ('solver-based: symbolic execution (CrossHair+z3), tee_map vs join of branches run alone',
-            'For 12 (thorough 15) branch sets of 2-4 branches x 3 joins and all N<=4 (5) integers: tee_map output = the join (as the statement defines merge / zip / combine_latest) of the timed traces of the branches run alone; on the root key, per lifetime under group_by/roll/split, nested tee_map, and plain observables. ' + SYMX,
+            'For 12 (thorough 15) branch sets of 2-4 branches x 3 joins and all N<=4 (5) integers: tee_map output = the join (as the statement defines merge / zip / combine_latest) of the timed traces of the branches run alone (incl. None items, early-terminating and tumbling-window last branches); on the root key, per lifetime under group_by/roll/split, nested tee_map, and plain observables. ' + SYMX,
             'trusted: CrossHair/z3; each branch run alone is its own specification; join definitions in vp/props/C08.py', '4/C08'),
     'C12': ('solver-based: z3 queries over terms produced by executing the real math closures (reals: induction + whole runs; IEEE FPSort: rounding bound); CrossHair for min/max',
-            'Welford induction step / base / output map of the real variance closure proved for every k>=1 over the reals; whole runs of sum, mean, variance, stddev, formal.variance, formal.stddev (n<=4, thorough 5; plain and mux; streaming and reduce) equal the textbook definitions and last streaming = reduce; relative-error bound n*kappa*u of the real closure on IEEE terms at FPSort(5,8), n=2 (thorough: also binary16, cvc5 cross-check). Counterexamples are replayed on the real code (Python floats / software floats of the reduced format).',
+            'Welford induction step / base / output map of the real variance closure proved for every k>=1 over the reals; whole runs of sum, mean, variance, stddev, formal.variance, formal.stddev (n<=4, thorough 5; plain and mux; streaming and reduce) equal the textbook definitions and last streaming = reduce; relative-error bound n*kappa*u of the real variance and formal.variance closures on IEEE terms at FPSort(5,8), n=2 (thorough: also binary16, cvc5 cross-check); per-group results on interleaved multiplexed keys bit-identical to the plain results over binary64 terms; data-dependent branches forked by the term executor. Counterexamples are replayed on the real code (Python floats / software floats of the reduced format).',
             'trusted: z3 (cvc5 cross-check in thorough); NOT decided: the error bound in binary64 and for n>=3 (out of reach of bit-blasting: stated in evidence/DESIGN); sqrt uninterpreted', '4/C12'),
     'C13': ('solver-based: symbolic execution (CrossHair+z3) with user functions raising on a symbolic condition',
-            'map/starmap/filter/scan raise when v%3==0, so every subset of failing items is a path; with ignore / error.map / router / no handler x 4 tails under multiplex, with_memory_store and group_by (2 keys), N<=3 (thorough 5): failing items absent or replaced in place, other keys and later items unaffected, dead letters in order and completing with the stream, unhandled error = outputs before it then on_error. ' + SYMX,
+            'map/starmap/filter/scan raise when v%3==0, so every subset of failing items is a path; with ignore / error.map / router / no handler x 4 tails under multiplex, with_memory_store and group_by (2 keys), N<=3 (thorough 5): failing items absent or replaced in place, other keys and later items unaffected, dead letters in order and completing with the stream, unhandled error = outputs before it then on_error (also with the failing operator before a group_by and with the only handler after the group_by). ' + SYMX,
             'trusted: CrossHair/z3; the same pipeline on the items without the failing ones is the specification of "as if absent"', '4/C13'),
     'C14': ('solver-based: symbolic execution (CrossHair+z3) of the real MemoryStore vs a dictionary model, one-step from arbitrary states + short histories',
-            'One operation (add_key/set/get/del_key) on a solver-chosen index from an arbitrary representable state of K<=3 (4) slots (markers and values symbolic), histories of 3 (4) solver-chosen operations over sparse indices, for int/uint/float/bool/obj with and without default; mapper: one operation from an arbitrary map state. After every step every index reads what the model says. ' + SYMX,
+            'One operation (add_key/set/get/del_key) on a solver-chosen index from an arbitrary representable state of K<=3 (4) slots (markers and values symbolic), histories of 3 (4) solver-chosen operations over sparse indices, for int/uint/float/bool/obj with and without default; mapper: one operation from an arbitrary map state. After every step every index reads what the model says, with the type and sign of the last value written (1 / True / 1.0, 0.0 / -0.0). ' + SYMX,
             'trusted: CrossHair/z3 (array models pinned by engine self-tests); contract: set/get/del_key only on live indices', '4/C14'),
     'C15': ('solver-based: symbolic execution (CrossHair+z3) of line / length-prefix framing with symbolic text, payload bytes and cut positions',
-            'Line: symbolic text of L<=4 (6) characters, 2 (3) cuts: unframe = split on newline, trailing partial line delivered at completion; frame+rechunk+unframe of items. Length-prefix: <=2 (3) items of <=2 bytes, prefix 1/2/4/8 x little/big, all solver-chosen cut pairs and truncation points: items back in order, incomplete trailing frame never delivered. ' + SYMX,
+            'Line: symbolic text of L<=4 (6) characters, 2 (3) cuts: unframe = split on newline, trailing partial line delivered at completion; frame+rechunk+unframe of items. Length-prefix: <=2 (3) items of <=2 bytes, prefix 1/2/4/8 x little/big, all solver-chosen cut pairs and truncation points: items back in order, incomplete trailing frame never delivered; symbolic prefix bytes (any announced length); every run follows an aborted subscription of the same operator object. ' + SYMX,
             'trusted: CrossHair/z3; io.BytesIO replaced by TinyBytesIO (validated against the real class each run)', '4/C15'),
     'C16': ('solver-based: symbolic execution (CrossHair+z3) of the real z/zstd wrapper code over a validated contract stub of the codec',
             'compress: symbolic chunk contents and codec buffering points -> one well-formed stream of the concatenation, each chunk to the codec once in order, one flush, gzip framing requested; decompress: symbolic payload, 2 solver-chosen cuts -> payload, completes; truncation at any solver-chosen point -> on_error, never on_completed. ' + SYMX,
             'CLAIM IS CONDITIONAL: rxsci wrapper code is correct given a codec honouring vp/stubs/streamcodec.py (its clauses are checked concretely on the real zlib/zstandard each run, incl. standalone gzip/zstd readability); zlib/zstd themselves are outside', '4/C16'),
     'C17': ('solver-based: symbolic execution (CrossHair+z3) of the real codec.py over validated pure-Python incremental codec models',
-            'Code points symbolic over the whole Unicode range minus surrogates, string-list shapes of <=2 (3) code points, first cut concrete per obligation and second solver-chosen: decode(rechunk(encode(items))) concatenates to the items, one chunk per item + final flush, no decode error, BOM exactly once; utf-8/16/32, latin-1. ' + SYMX,
+            'Code points symbolic over the whole Unicode range minus surrogates, string-list shapes of <=2 (3) code points, first cut concrete per obligation and second solver-chosen: decode(rechunk(encode(items))) concatenates to the items, one chunk per item + final flush, no decode error, BOM exactly once, second subscription as the first; utf-8/16/32, latin-1; the decode path of json.load_from_file. ' + SYMX,
             'CLAIM IS CONDITIONAL on codecs.getincremental* behaving as vp/stubs/codecs_model.py (validated against CPython on a boundary alphabet x all cuts each run)', '4/C17'),
     'C18': ('solver-based: CrossHair+z3 on csv dump/load with symbolic strings; z3 QF_BVFP query over parse_decimal\'s current source re-executed on terms',
-            'Strings: every split of <=3 (4) symbolic characters over 1-3 fields mixed with bool/int fields, 5 separators, 2 escape chars: rows round-trip. Numbers: parse_decimal source on (sign, integer digits, fraction digits) terms vs the correctly rounded binary64 value and sign, |I|<1000 (10^6), 1..4 (6) fraction digits, as printed by str(). parse_int on digit strings. File form with a short read at every position. ' + SYMX,
+            'Strings: every split of <=3 (4) symbolic characters over 1-3 fields mixed with bool/int fields, 5 separators, 2 escape chars: rows round-trip. Numbers: parse_decimal source on (sign, integer digits, fraction digits) terms vs the correctly rounded binary64 value and sign, |I|<1000 (10^6), 1..4 (6) fraction digits, as printed by str(). parse_int on digit strings and its source on terms up to 19 digits. File form with two adjacent short reads at every position, also by name with an explicit encoding. ' + SYMX,
             'trusted: CrossHair/z3; float(text) and str(float) are C code, modelled by their contract (correct rounding / shortest repr); exponent forms only through the fall-back check', '4/C18'),
     'C19': ('solver-based: symbolic execution (CrossHair+z3) of the real json.py glue over validated contract stubs (serializer, codecs, compressor, file)',
-            'Objects are symbolic texts (any character incl. raw newline, quote, backslash, non-ASCII, astral); dump/load and dump_to_file/load_from_file with compression None/gzip/zstd, a short read at every byte position, file object and custom open_obj: items equal, in order, one per object, empty file loads nothing. ' + SYMX,
+            'Objects are symbolic texts (any character incl. raw newline, quote, backslash, non-ASCII, astral); dump/load and dump_to_file/load_from_file with compression None/gzip/zstd, two adjacent short reads at every byte position, file object and custom open_obj (also under compression), utf-8 and utf-16: items equal, in order, one per object, empty file loads nothing, file complete and closed when completion is signalled. ' + SYMX,
             'CLAIM IS CONDITIONAL on the stubs LineJSON, codec models, StreamCodec, ShortReadFile (each validated against the real library each run; a real 3000-object multi-chunk file round-trips through the real libraries as a sanity run)', '4/C19'),
     'C20': ('solver-based: symbolic execution (CrossHair+z3) of the real parquet.py dump/load code over a validated contract stub of pyarrow',
-            'N<=8 (12) rows with symbolic values, dump batch size and load batch size solver-chosen in 1..N+1: the file holds exactly the source rows once each in order, batches never exceed batch_size, writer closed, load returns the rows for every load batch size. ' + SYMX,
+            'N<=8 (12) rows with symbolic values, dump batch size and load batch size solver-chosen in 1..N+1: the file holds exactly the source rows once each in order, batches never exceed batch_size, writer (and file, when opened by path) closed when completion is signalled, a second subscription of the same dump pipeline writes the same file, load returns the rows for every load batch size. ' + SYMX,
             'CLAIM IS CONDITIONAL on pyarrow behaving as vp/stubs/fakearrow.py for the calls rxsci makes (validated by running identical scenarios through the real pyarrow each run, incl. (2048,1024), (5000,999))', '4/C20'),
 })
 
@@ -110,7 +110,7 @@ def main():
             dict(name='z3x', path='vp/z3x.py', serves_properties=['C01', 'C12', 'C18'], kind_free_text='real closures / function source executed on z3 terms, explicit solver queries, cvc5 cross-check'),
         ],
         checks=checks,
-        notes='All checks are bounded: CONFIRMED means for every value within the bound written in evidence; INCONCLUSIVE obligations (budget, unknown) are counted and named in evidence and are never reported as success or violation. '
+        notes='Engine guards: lemma self-tests ride along with every check; every CONFIRMED obligation is additionally run concretely (untraced) on witness inputs; vacuity twins per family. All checks are bounded: CONFIRMED means for every value within the bound written in evidence; INCONCLUSIVE obligations (budget, unknown) are counted and named in evidence and are never reported as success or violation. '
               'Exit 0/1/2 = held / VIOLATION (reproduced concretely) / harness error. Genuine defects found are repaired by fix: commits in /repo and listed under fixed in known_findings.json.',
         not_applicable=na,
     )
